@@ -293,6 +293,12 @@ def run(c):
     # 1. the design: full reachable graphs at the real constants, every invariant in every state
     c.tlc("Health", "Health.cfg", workers=8, deadlock=False, required_actions=["Observe"], timeout=600)
     c.tlc("HealthRate", "HealthRate.cfg", workers=8, required_actions=["Notify"], timeout=900)
+    # the rate limiter's three action properties for EVERY key set, value set and RateMax (proof system, not enumeration)
+    from vlib import tlaps, tlc as tlcmod0
+    pr = tlaps.prove("HealthRateProof", timeout=300)
+    c.extra["health_rate_proof_tlaps"] = pr
+    if not pr["proved"]:
+        raise tlcmod0.TlcError("spec/proofs/HealthRateProof.tla is not proved any more (HealthRate.tla changed?): %s" % pr.get("output_tail", "")[-600:])
 
     # 2. S->I: transition cover of both graphs on the real objects
     for machine, gen, lab, outf, extra in (
